@@ -53,6 +53,70 @@ Theorem C13_random_word_none : forall m k draws, valid_dfa m = true ->
 Proof. intros m k draws Hv. exact (random_word_none m Hv k draws). Qed.
 Print Assumptions C13_random_word_none.
 
+(* maximum_word_length: the exact maximum for a finite non-empty language, None exactly for an
+   infinite language (accepted words of every length bound), EmptyLanguageException exactly for
+   the empty language; no other outcome *)
+Theorem C13_max_len_exact : forall m, valid_dfa m = true ->
+  match max_len m with
+  | Ok (Some n) => (exists w, length w = n /\ dfa_acc m w = true) /\
+                   (forall w, dfa_acc m w = true -> length w <= n)
+  | Ok None => forall n, exists w, dfa_acc m w = true /\ n < length w
+  | Err Empty => forall w, dfa_acc m w = false
+  | Err _ => False
+  end.
+Proof. intros m Hv. exact (max_len_spec m Hv). Qed.
+Print Assumptions C13_max_len_exact.
+
+(* the listing of the language the next two theorems refer to: accepted words shorter than L,
+   ordered by (length, lexicographic), each exactly once *)
+Theorem C13_words_below_listing : forall m L, valid_dfa m = true ->
+  StronglySorted ll_lt (words_below m L) /\ NoDup (words_below m L) /\
+  (forall w, In w (words_below m L) <-> dfa_acc m w = true /\ length w < L).
+Proof.
+  intros m L Hv. split; [exact (words_below_sorted m Hv L)|].
+  split; [exact (words_below_NoDup m Hv L)|exact (words_below_In m Hv L)].
+Qed.
+Print Assumptions C13_words_below_listing.
+
+(* cardinality / len: the number of accepted words (the language is bounded in length);
+   InfiniteLanguageException exactly for an infinite language; 0 for the empty language *)
+Theorem C13_cardinality_exact : forall m, valid_dfa m = true ->
+  match cardinality m with
+  | Ok c => exists L, (forall w, dfa_acc m w = true -> length w < L) /\
+                      c = N.of_nat (length (words_below m L))
+  | Err Infinite => forall n, exists w, dfa_acc m w = true /\ n < length w
+  | Err _ => False
+  end.
+Proof. intros m Hv. exact (cardinality_spec m Hv). Qed.
+Print Assumptions C13_cardinality_exact.
+
+(* iteration (after the repair): the first n items are the first n words of the (length,
+   lexicographic) listing; either n words are produced or the whole language is (so every
+   accepted word eventually appears, once, and nothing else does); an empty language produces
+   nothing.  FULL statement: *)
+Definition C13_iter_order_complete_statement : Prop := forall m n, valid_dfa m = true ->
+  exists ws L, iter_upto m n = Ok ws /\ ws = firstn n (words_below m L) /\
+               (length ws = n \/ (forall w, dfa_acc m w = true -> In w ws)).
+(* PROVED: the same, except that for an INFINITE language the model may answer "out of fuel"
+   (its level budget n*(|Q|+1) is not proved sufficient; the harness treats that answer as a
+   disagreement).  Finite and empty languages: full statement. *)
+Theorem C13_iter_order_complete_partial : forall m n, valid_dfa m = true ->
+  match iter_upto m n with
+  | Ok ws => exists L, ws = firstn n (words_below m L) /\
+                       (length ws = n \/ (forall w, dfa_acc m w = true -> In w ws))
+  | Err e => e = Fuel /\ (forall k, exists w, dfa_acc m w = true /\ k < length w)
+  end.
+Proof. intros m n Hv. exact (iter_upto_spec m Hv n). Qed.
+Print Assumptions C13_iter_order_complete_partial.
+
+Theorem C13_iter_empty_language : forall m n, valid_dfa m = true ->
+  (forall w, dfa_acc m w = false) -> iter_upto m n = Ok [].
+Proof.
+  intros m n Hv He. unfold iter_upto. destruct (isempty_spec m Hv) as [b [E Hb]]. rewrite E. simpl.
+  destruct b; [reflexivity|]. apply Hb in He. discriminate.
+Qed.
+Print Assumptions C13_iter_empty_language.
+
 (* non-vacuity: a partial DFA over {0,1} with rows stored out of order *)
 Example C13_example :
   let m := mkdfa [0;1;2] [0;1] [(0,[(1,0);(0,1)]);(1,[(0,2)]);(2,[])] 0 [1;2] true in
